@@ -111,3 +111,25 @@ Definition w_wrapper_method_form : list node := [N (KFn [] true "f") [N KStmt [N
 Definition l_wrapper_method_form : srclines := [(1, "    rt.spawn_blocking(|| fs::read(v0));")].
 Theorem C17_wrapper_method_form_refuted : refutes_b 8 l_wrapper_method_form (mkcfg [] [] []) w_wrapper_method_form.
 Proof. refute. Qed.
+
+(* further members of the two attribute classes, read by the specification from the attribute text
+#[cfg( all(unix, any(test)) )]
+mod tests1 {
+    fn f() {
+        v0.unwrap();
+    }
+}
+*)
+Definition w_cfg_test_predicate : list node := [N (KMod [SAttr "#[cfg( all(unix, any(test)) )]"]) [N (KFn [] false "f") [N KStmt [N (KMethod 3 8 3 "unwrap") [N (KId "v0") []]]]]].
+Theorem C17_cfg_test_predicate_refuted : refutes 2 l_cfg_test_literal (mkcfg [] [] []) w_cfg_test_predicate.
+Proof. refute. Qed.
+
+(*
+#[cfg_attr(test, allow(unused))]
+fn f() {
+    v0.unwrap();
+}
+*)
+Definition w_cfg_attr_lookalike : list node := [N (KFn [SAttr "#[cfg_attr(test, allow(unused))]"] false "f") [N KStmt [N (KMethod 2 4 2 "unwrap") [N (KId "v0") []]]]].
+Theorem C17_cfg_attr_lookalike_refuted : refutes 1 l_test_attr_substring (mkcfg [] [] []) w_cfg_attr_lookalike.
+Proof. refute. Qed.
